@@ -88,6 +88,11 @@ fn coeff(r: &mut Rng) -> f64 {
     }
 }
 fn scalar(r: &mut Rng) -> f64 {
+    if r.chance(0.08) {
+        // one or two ulps beside a "special" scalar: shortcuts keyed on s == 1, -1, 2 ... with a tolerance show here
+        let c = r.pick(&[1.0, -1.0, 2.0, 0.5, -2.0]);
+        return ulps(c, r.pick(&[-2i64, -1, 1, 2]));
+    }
     match r.below(12) {
         0 => 0.0,
         1 => -1.0,
